@@ -14,7 +14,10 @@ import (
 	"verif/sim/wl"
 )
 
-func genStrOp(t *sim.Tape, nkeys int, cid, i int, intKeys bool) wl.StrOp {
+// ttlChoices: times to live of SET .. EX/PX in the runs that let simulated time pass
+var ttlChoices = []time.Duration{time.Second, 2 * time.Second, 10 * time.Second, 100 * time.Millisecond, 1500 * time.Millisecond}
+
+func genStrOp(t *sim.Tape, nkeys int, cid, i int, intKeys bool, withTTL bool) wl.StrOp {
 	key := func() string { return fmt.Sprintf("k%d", t.Draw(nkeys, "key")) }
 	uniq := fmt.Sprintf("%d", 1000*(cid+1)+i) // unique integer-looking value
 	if !intKeys && t.Draw(3, "nonint") == 0 {
@@ -24,7 +27,11 @@ func genStrOp(t *sim.Tape, nkeys int, cid, i int, intKeys bool) wl.StrOp {
 	case 0:
 		return wl.StrOp{Kind: "GET", Keys: []string{key()}}
 	case 1:
-		return wl.StrOp{Kind: "SET", Keys: []string{key()}, Vals: []string{uniq}}
+		op := wl.StrOp{Kind: "SET", Keys: []string{key()}, Vals: []string{uniq}}
+		if withTTL && t.Draw(2, "withttl") == 1 {
+			op.TTL = ttlChoices[t.Draw(len(ttlChoices), "ttl")]
+		}
+		return op
 	case 2:
 		return wl.StrOp{Kind: "SETNX", Keys: []string{key()}, Vals: []string{uniq}}
 	case 3:
@@ -126,6 +133,27 @@ func runC16(t *testing.T, tape *sim.Tape, tier string) *Outcome {
 	// a third of the runs switch on the scheduling points inserted in front of every lock acquisition and
 	// sync.Map access of the framework and the example store (finer interleavings than the hand-placed yields)
 	cl.AutoYields = tape.Draw(3, "autoyields") == 2
+	// a quarter of the histories let simulated time pass (1..4 clock advances between the other events) and give
+	// half of their SETs a time to live: from the moment the clock has passed it the key may be gone (pinned
+	// stores never expire anything; a store that does must do it atomically with respect to the commands)
+	ttlRun := tape.Draw(4, "ttlrun") == 3
+	if ttlRun {
+		for i := 1 + tape.Draw(4, "nticks"); i > 0; i-- {
+			cl.Ticks = append(cl.Ticks, []time.Duration{50 * time.Millisecond, time.Second, 2 * time.Second, 11 * time.Second}[tape.Draw(4, "tick")])
+		}
+		o.stat("histories_with_times_to_live_and_clock_advances", 1)
+		// time passes once a SET with a time to live has been answered (a clock advance before that tests nothing)
+		cl.TickGate = func() bool {
+			for j, c := range clients {
+				for k := range c.CallSeq {
+					if i := k - skipSel; i >= 0 && i < len(ops[j]) && ops[j][i].TTL > 0 && k < len(c.Vals) {
+						return true
+					}
+				}
+			}
+			return false
+		}
+	}
 	for j := 0; j < nclients; j++ {
 		n := 1 + tape.Draw(maxOps, "nops")
 		var items [][]byte
@@ -133,7 +161,7 @@ func runC16(t *testing.T, tape *sim.Tape, tier string) *Outcome {
 			items = append(items, resp.Cmd("SELECT", fmt.Sprint(db)))
 		}
 		for i := 0; i < n; i++ {
-			op := genStrOp(tape, nkeys, j, i, intKeys)
+			op := genStrOp(tape, nkeys, j, i, intKeys, ttlRun)
 			ops[j] = append(ops[j], op)
 			if tape.Draw(8, "nested") == 7 {
 				// the same command framed as an array nested in a one-element array (accepted by the server)
@@ -163,7 +191,7 @@ func runC16(t *testing.T, tape *sim.Tape, tier string) *Outcome {
 				items = append(items, resp.Cmd("SELECT", fmt.Sprint(db)))
 			}
 			for i := 0; i < n; i++ {
-				op := genStrOp(tape, nkeys, j, i, intKeys)
+				op := genStrOp(tape, nkeys, j, i, intKeys, ttlRun)
 				ops[j] = append(ops[j], op)
 				items = append(items, resp.Cmd(op.Args()...))
 			}
@@ -200,9 +228,25 @@ func runC16(t *testing.T, tape *sim.Tape, tier string) *Outcome {
 			}
 			hist = append(hist, op)
 			lines = append(lines, fmt.Sprintf("client %d [%d,%d] %s -> %s", j, op.Call, op.Return, strings.Join(ops[j][i].Args(), " "), desc))
+			// a SET with a time to live: from the first clock advance that reaches (invocation time + time to
+			// live) on, the key may expire - an optional step of the model that stays pending
+			if sop := ops[j][i]; sop.TTL > 0 && k < len(c.CallTime) {
+				deadline := c.CallTime[k].Add(sop.TTL)
+				for _, cs := range cl.Clock {
+					if !cs.Now.Before(deadline) {
+						hist = append(hist, porcupine.Operation{ClientId: 1000 + len(hist), Input: wl.StrOp{Kind: "EXPIRE?", Keys: sop.Keys, Vals: sop.Vals}, Call: int64(cs.Seq), Return: big, Output: wl.StrOut{}})
+						lines = append(lines, fmt.Sprintf("clock    [%d,-] time to live of %s=%s (client %d) has passed", cs.Seq, sop.Keys[0], sop.Vals[0], j))
+						o.stat("times_to_live_that_passed_within_the_history", 1)
+						break
+					}
+				}
+			}
 		}
 	}
 	sort.Strings(lines)
+	for _, l := range lines {
+		cl.S.Logf("hist", "%s", l)
+	}
 	if len(o.Viol) == 0 && len(hist) > 0 && len(hist) <= 48 {
 		busy.Store(false) // the linearizability search is real computation, not a simulated step: exempt from the stall watchdog
 		res := porcupine.CheckOperationsTimeout(wl.StringModel(), hist, 10*time.Second)
